@@ -13,7 +13,8 @@ Inductive ev :=
 | Acq (l : lk) (m : md)
 | Rel (l : lk) (m : md)
 | Rd (x : loc) (pos : string)
-| Wr (x : loc) (pos : string).
+| Wr (x : loc) (pos : string)
+| User (pos : string).            (* a call into user code: filter, route function, handler, recover / error handler *)
 
 Definition lk_eqb (a b : lk) : bool := match a, b with WS, WS | RT, RT => true | _, _ => false end.
 Definition md_eqb (a b : md) : bool := match a, b with R, R | W, W => true | _, _ => false end.
@@ -52,6 +53,9 @@ Fixpoint check_path (h : held) (p : list ev) : bool :=
       end
   | Rd x _ :: p' => match hget h (guard x) with Some _ => check_path h p' | None => false end
   | Wr x _ :: p' => match hget h (guard x) with Some W => check_path h p' | _ => false end
+  (* user code may call back into the container (RegisteredWebServices, the OPTIONS / CORS filters) and may run
+     for long: no registration lock may be held across it *)
+  | User _ :: p' => match h with (None, None) => check_path h p' | _ => false end
   end.
 
 Definition lockset_ok (t : list (string * list ev)) : bool :=
@@ -65,6 +69,7 @@ Fixpoint first_bad (h : held) (p : list ev) : option ev :=
   | Rel l m :: p' => match hget h l with Some _ => first_bad (hset h l None) p' | None => Some (Rel l m) end
   | Rd x s :: p' => match hget h (guard x) with Some _ => first_bad h p' | None => Some (Rd x s) end
   | Wr x s :: p' => match hget h (guard x) with Some W => first_bad h p' | _ => Some (Wr x s) end
+  | User s :: p' => match h with (None, None) => first_bad h p' | _ => Some (User s) end
   end.
 Definition offenders (t : list (string * list ev)) : list (string * ev) :=
   flat_map (fun e => match first_bad hempty (snd e) with Some x => [(fst e, x)] | None => [] end) t.
@@ -101,7 +106,7 @@ Definition cstep (ts : list thread) (i : nat) : option (list thread) :=
       match e with
       | Acq l m => if others_allow ts i l m then Some (set_nth i (hset h l (Some m), p) ts) else None
       | Rel l _ => Some (set_nth i (hset h l None, p) ts)
-      | Rd _ _ | Wr _ _ => Some (set_nth i (h, p) ts)
+      | Rd _ _ | Wr _ _ | User _ => Some (set_nth i (h, p) ts)
       end
   | _ => None
   end.
